@@ -449,7 +449,7 @@ func (c *collectTB) Fatalf(format string, args ...any) {
 	panic(failNow{})
 }
 func (c *collectTB) Logf(string, ...any) {}
-func (c *collectTB) Helper()              {}
+func (c *collectTB) Helper()             {}
 func (c *collectTB) Failed() bool {
 	c.mu.Lock()
 	defer c.mu.Unlock()
